@@ -93,7 +93,7 @@ func workersN() int {
 
 // coverStage model-checks one family exhaustively (all invariants and action properties) and
 // replays every printed history on the real code.
-func coverStage(name string, cats []*cat.Catalog, b Bounds, timeout time.Duration, maxExamples int) (*CoverStats, error) {
+func coverStage(name string, cats []*cat.Catalog, b Bounds, timeout time.Duration, maxExamples int, coverage bool) (*CoverStats, error) {
 	start := time.Now()
 	st := &CoverStats{Family: name, Catalogs: len(cats), Bounds: b.String(), Divs: map[string]int{}}
 	dir, err := newWorkDir("cover-" + name)
@@ -147,7 +147,11 @@ func coverStage(name string, cats []*cat.Catalog, b Bounds, timeout time.Duratio
 			}
 		}
 	}()
-	tl, terr := runTLC(dir, "MCGen", nw, timeout, nil, func(s string) { p.submit(s) })
+	var extra []string
+	if coverage {
+		extra = []string{"-coverage", "1"}
+	}
+	tl, terr := runTLC(dir, "MCGen", nw, timeout, extra, func(s string) { p.submit(s) })
 	p.close()
 	wg.Wait()
 	st.TLC = tl
